@@ -851,7 +851,14 @@ class Query(Queryable, Statement):
             return features
 
         superset = series.Element.dissect(*source.features)
-        selection = tuple(ensure_subset(*(series.Feature.ensure_is(c) for c in selection or [])))
+        selection = tuple(
+            ensure_subset(
+                *(
+                    c.operable if isinstance(c, series.Comparison.Pythonic) else series.Feature.ensure_is(c)
+                    for c in selection or []
+                )
+            )
+        )
         if prefilter is not None:
             prefilter = series.Cumulative.ensure_notin(
                 series.Predicate.ensure_is(*ensure_subset(series.Operable.ensure_is(prefilter)))
